@@ -171,6 +171,8 @@ def oracle(case, line):
                 bad.append(("infohash", "info hash is not the SHA-1 of the canonical info dictionary"))
         if kind == "T" and body.startswith("u ") and G.is_map(info):
             bad.append(("unordered-accepted", "an info dictionary flagged unordered was accepted"))
+        if kind == "B" and G.ref_info_unordered(unhex(body)):
+            bad.append(("unordered-accepted", "bencoded torrent whose info dictionary is unordered somewhere inside was accepted"))
     # file system
     if d["open"] is not None and d["open"] != "skip":
         if d["open"] != "ok":
@@ -210,10 +212,10 @@ def run(rep, tier, seed, replay):
                        "modelled not verified: SHA-1 (Section variable H in Coq; the OCaml driver supplies an implementation whose output is compared with the library's object_sha1 on every accepted case)",
                        "modelled not verified: Object/std::map as a sorted association list (C07 value tree); std::sort as insertion sort (unique sorted permutation of a total order); strcmp as comparison of the prefix before the first NUL",
                        "not modelled: TrackerList::insert_url beyond 'does it throw', DownloadWrapper::initialize beyond the zero-hash internal_error, the kernel (mkdir/open) — the scratch tree is walked instead",
-                       "harness rules: tracker_key != 0; the download is opened only when it has <= 4096 pieces and <= 64 files; creation is forced with FileList::open(0) after Download::open instead of driving a hash check + start",
+                       "harness rules: tracker_key != 0; the life cycle open -> hash_check (driven to completion on the stepped main thread, harness/common/session) -> start(skip_tracker) -> stop -> close -> download_remove is run only when the download has <= 4096 pieces and <= 64 files; the scratch tree is walked after close",
                        "python reference oracle in props/c08.py + gen/c08.py (ref_magnet_hash) evaluated on implementation outputs"]))
     model = ltv.build_model("C08")
-    impl = ltv.build_harness("c08", ["c08.cc"])
+    impl = ltv.build_harness("c08", ["c08.cc", "common/session.cc"], libs=["-lcrypto"])
     if replay:
         cases = [json.load(open(replay))["case"]]
         stats = {"replay": 1}
@@ -226,12 +228,22 @@ def run(rep, tier, seed, replay):
     mism = 0
     samples = []
     klass_seen = collections.Counter()
+    lifecycle = collections.Counter()
     for i, case in enumerate(cases):
         m = mo[i] if i < len(mo) else "MISSING"
         o = io[i] if i < len(io) else "MISSING"
         outcome[o.split(" ")[0]] += 1
         if o.startswith("OK "):
             accepted.add(hashlib.sha1(case.encode()).digest())
+            if "| OPEN:ok" in o:
+                lifecycle["opened_checked_started_closed"] += 1
+                fpart = o.split(" files=", 1)[1].split(" | ", 1)[0]
+                if ":p" in fpart:
+                    lifecycle["with_padding_file"] += 1
+                if any(f.split(":")[1] == "0" for f in fpart.split(",") if f.count(":") >= 4):
+                    lifecycle["with_zero_length_file"] += 1
+            elif "| OPEN:skip" in o:
+                lifecycle["skipped_too_many_pieces_or_files"] += 1
         if len(samples) < 5 and i % 1499 == 7:
             samples.append({"case": case[:200], "impl": o[:300]})
         try:
@@ -273,7 +285,7 @@ def run(rep, tier, seed, replay):
                         "non-trivial = distinct case the implementation ACCEPTS (a download was built, dumped, opened in a scratch root and the tree walked); "
                         "rejected cases are counted in outcome_histogram",
                    samples=samples, input_distribution=stats, outcome_histogram=dict(outcome), mismatches=mism,
-                   oracle_classes_seen=dict(klass_seen),
+                   oracle_classes_seen=dict(klass_seen), lifecycle=dict(lifecycle),
                    exhaustive="all 'files' lists of 1..2 entries with 1..2 path components over {a,b,.,..,'',a/b,a\\0} (3192 cases)" if tier != "quick" else "quarter sample of that scope")
     rep.assumptions += ["integers in the torrent object are int64 (what the bencode decoder yields)",
                         "file-system limits (NAME_MAX, PATH_MAX, inode quota) are not hit: generated components are short",
